@@ -29,8 +29,8 @@ def cases(prop, tier, seed):
                                 cls=f"IndexClassifierWrapper[{clfname}{',weights' if (t // 4) % 2 else ''}]",
                                 key=["C19", clfname, t]))
     elif prop == "C20":
-        # inner strategies with a known C01 finding of their own (duplicates under ties) are not used to judge the wrappers
-        inner = [n for n, z in ZOO.items() if not n.startswith(("SubSampling", "Parallel", "TypiClust", "BatchBALD", "US-eap")) and z["kind"] == "clf"
+        # (TypiClust, BatchBALD and US-eap used to be left out because of C01 findings of their own; those are repaired: aebbe27d, 889558da, 7e343c4b)
+        inner = [n for n, z in ZOO.items() if not n.startswith(("SubSampling", "Parallel")) and z["kind"] == "clf"
                  and not z["slow"]]
         for name in inner:
             for t in range(4 * reps):
